@@ -23,4 +23,8 @@ def pattern (seed len : Nat) : Bytes :=
 
 def showPlus (xs : List Nat) : String := if xs.isEmpty then "-" else "+".intercalate (xs.map toString)
 
+def sortNats (l : List Nat) : List Nat := (l.toArray.qsort (· < ·)).toList
+
+def commaNats (s : String) : List Nat := if s = "-" || s = "" then [] else (s.splitOn ",").filterMap String.toNat?
+
 end Driver
